@@ -64,7 +64,7 @@ def main(ctx):
     mc(ctx, 'c06_sens2', dict(RoleCheck='FALSE'), ['RoleRespected'],
        expect='RoleRespected')
     tab = table(ctx)
-    ctx.require(len(tab) == 2 * 6 * 24 * 2, f'table has {len(tab)} rows')
+    ctx.require(len(tab) == 2 * 7 * 24 * 2, f'table has {len(tab)} rows')
 
     # ---- 2a. real server, malicious raw client ----
     twin = G.run_server_case()
@@ -88,7 +88,8 @@ def main(ctx):
                     [x for x in r['seen'] if x != 3] == twin['seen'] and
                     r['log'] == twin['log'])
             ctx.count(('srv', phase, cls, vname), nontrivial=True)
-            pred = tab.get(('server', phase, cls, True))
+            pred = tab.get(('server', G.MODEL_PHASE.get(phase, phase), cls,
+                            True))
             sig = {'module': 'Gate', 'role': 'server', 'phase': phase,
                    'class': cls, 'variant': vname}
             expected_cls = cls in ('SERVICE_REQUEST', 'USERAUTH_REQUEST',
@@ -150,7 +151,8 @@ def main(ctx):
                 f'client twin run unexpected: {ctwin}')
     phase_of = {'before_accept': 'P2', 'after_accept': 'P3',
                 'before_failure': 'P3', 'after_failure': 'P3',
-                'before_success': 'P3', 'after_success': 'P4'}
+                'before_success': 'P3', 'after_success': 'P4',
+                'after_rekey': 'P4n'}
     for point in G.CLIENT_POINTS:
         for (cls, vname), (t, body) in sorted(types.items()):
             if quick and vname not in ('wellformed', 'trailing'):
